@@ -1,8 +1,14 @@
 package checks
 
 import (
+	"bytes"
 	"context"
+	"crypto/hmac"
+	"crypto/md5"
+	"crypto/sha1"
+	"crypto/sha256"
 	"fmt"
+	"hash"
 	"sort"
 	"strings"
 	"time"
@@ -68,6 +74,7 @@ func init() {
 			}
 			for k := 0; k < reps*4; k++ {
 				cs = append(cs, ev.MkCase("batch", c17Batch{What: "discovery", Count: 60, Seed: seed*17 + int64(k)}))
+				cs = append(cs, ev.MkCase("batch", c17Batch{What: "authwrapper", Count: 1500, Seed: seed*19 + int64(k)}))
 			}
 			for k := 0; k < reps; k++ {
 				for at := 1; at <= 9; at++ {
@@ -127,6 +134,16 @@ func c17Exec(run *ev.Run, c ev.Case) {
 						}
 						c17Pairwise(run, sp, ea, t, bra, fmt.Sprintf("truncated-%d", len(eb)-cut), true)
 					}
+					// earlier inputs that a decoder refuses part-way (datagram cut short, bytes
+					// damaged in transit): whatever they leave behind must not affect the next decode
+					for k := 1; k <= 20 && k < len(ea); k += 1 + k/6 {
+						c17Pairwise(run, sp, append([]byte(nil), ea[:len(ea)-k]...), eb, "damaged-earlier", brb, true)
+					}
+					if len(ea) > 0 {
+						m := append([]byte(nil), ea...)
+						m[r.Intn(len(m))] ^= 1 << uint(r.Intn(8))
+						c17Pairwise(run, sp, m, eb, "damaged-earlier", brb, true)
+					}
 					if len(eb) > 0 {
 						m := append([]byte(nil), eb...)
 						for k := 1 + r.Intn(3); k > 0; k-- {
@@ -139,6 +156,8 @@ func c17Exec(run *ev.Run, c ev.Case) {
 					}
 				}
 			}
+		case "authwrapper":
+			c17AuthWrapper(run, b.Seed, b.Count, c)
 		case "discovery":
 			r := rng(b.Seed, "c17disc")
 			for i := 0; i < b.Count; i++ {
@@ -150,7 +169,10 @@ func c17Exec(run *ev.Run, c ev.Case) {
 					for _, inSess := range []bool{false, true} {
 						c17ConnPair(run, c17Conn{First: b.Count, Second: second, FirstOutcome: oc, InSession: inSess, Suite: (b.Count + second) % 9, ReuseCmd: b.Count == second, Seed: b.Seed})
 						if oc == "ok" || oc == "ccb:d4" {
-							for _, so := range []string{"empty", "cc:c1", "trunc"} {
+							for _, so := range []string{"empty", "cc:c1", "trunc", "busy-then-ok", "garbage-then-ok", "lost-then-ok"} {
+								if so == "lost-then-ok" && inSess {
+									continue // a lost reply ends an in-session command
+								}
 								c17ConnPair(run, c17Conn{First: b.Count, Second: second, FirstOutcome: oc, SecondOutcome: so, InSession: inSess, Suite: (b.Count + second) % 9, ReuseCmd: b.Count == second, Seed: b.Seed})
 							}
 						}
@@ -180,7 +202,7 @@ func c17Pairwise(run *ev.Run, sp *layerSpec, a, b []byte, bra, brb string, decid
 		}
 		return
 	}
-	if erra != nil && deciding {
+	if erra != nil && deciding && bra != "damaged-earlier" {
 		run.Violation("C17:"+sp.Name+":valid-encoding-rejected", fmt.Sprintf("valid encoding %x rejected: %v", a, erra), cs, nil)
 		return
 	}
@@ -327,6 +349,12 @@ func c17ConnPair(run *ev.Run, o c17Conn) {
 			if gsecond.NetFn == 0x2c {
 				min2 = 2 // keep the group extension byte
 			}
+		case "busy-then-ok":
+			script2 = []string{"busy"}
+		case "garbage-then-ok":
+			script2 = []string{"garbage:noise", "tmo"}
+		case "lost-then-ok":
+			script2 = []string{"lost"}
 		case "cc:c1":
 			script2 = []string{"cc:c1"}
 		case "trunc":
@@ -576,5 +604,74 @@ func c17SDR(run *ev.Run, o c17SDRHist) {
 	}
 	if a != b {
 		run.Violation("C17:sdr:result-depends-on-history", fmt.Sprintf("repository changed (%s) before Get SDR %d of the retrieval: the call returned %s; a fresh session retrieves %s from the final state", o.Kind, o.At, a, b), cs, nil)
+	}
+}
+
+// c17AuthWrapper: the authenticated session wrapper shares one keyed hash between
+// all the packets of a session. A used layer (and hash) that has just seen a
+// damaged packet - cut short in the AuthCode, a bit flipped anywhere - must decode
+// the next authentic packet exactly as a fresh layer with a fresh hash does.
+func c17AuthWrapper(run *ev.Run, seed int64, count int, cs ev.Case) {
+	r := rng(seed, "c17authwrapper")
+	key := rbytes(r, 20)
+	algs := []struct {
+		integ byte
+		mk    func() hash.Hash
+	}{
+		{1, func() hash.Hash { return truncHash{hmac.New(sha1.New, key), 12} }},
+		{2, func() hash.Hash { return hmac.New(md5.New, key) }},
+		{4, func() hash.Hash { return truncHash{hmac.New(sha256.New, key), 16} }},
+	}
+	for _, alg := range algs {
+		se := &refbmc.Session{ConsoleSID: r.Uint32(), Suite: refbmc.Suite{Auth: 1, Integ: alg.integ, Conf: 1}, K1: key, K2: rbytes(r, 20), Active: true}
+		used := &ipmi.V2Session{IntegrityAlgorithm: alg.mk()}
+		for i := 0; i < count/len(algs); i++ {
+			run.Eval(1)
+			valid := se.Wrap(rbytes(r, 1+r.Intn(40)), refbmc.WrapOpts{NoEncrypt: true})[4:]
+			var damaged []byte
+			kind := ""
+			switch r.Intn(4) {
+			case 0:
+				other := se.Wrap(rbytes(r, 1+r.Intn(40)), refbmc.WrapOpts{NoEncrypt: true})[4:]
+				damaged, kind = other[:len(other)-1-r.Intn(15)], "cut-in-authcode"
+			case 1:
+				other := se.Wrap(rbytes(r, 1+r.Intn(40)), refbmc.WrapOpts{NoEncrypt: true})[4:]
+				other[r.Intn(len(other))] ^= 1 << uint(r.Intn(8))
+				damaged, kind = other, "bit-flip"
+			case 2:
+				other := se.Wrap(rbytes(r, 1+r.Intn(40)), refbmc.WrapOpts{NoEncrypt: true})[4:]
+				damaged, kind = append(other, rbytes(r, 1+r.Intn(6))...), "extended"
+			default:
+				kind = "none"
+			}
+			var e0, eu, ef error
+			fresh := &ipmi.V2Session{IntegrityAlgorithm: alg.mk()}
+			pv, st := safe(func() {
+				if damaged != nil {
+					e0 = used.DecodeFromBytes(exactCopy(damaged), gopacket.NilDecodeFeedback)
+				}
+				eu = used.DecodeFromBytes(exactCopy(valid), gopacket.NilDecodeFeedback)
+				ef = fresh.DecodeFromBytes(exactCopy(valid), gopacket.NilDecodeFeedback)
+			})
+			run.Nontrivial(fmt.Sprintf("authwrapper|%d|%s|%v", alg.integ, kind, e0 != nil))
+			desc := fmt.Sprintf("integrity algorithm %d: authentic packet %x decoded after a damaged one (%s, %x, refused: %v)", alg.integ, valid, kind, damaged, e0 != nil)
+			if pv != nil {
+				run.Violation("C17:V2SessionAuth:panic:"+panicSite(st), fmt.Sprintf("%s: %v", desc, pv), cs, nil)
+				return
+			}
+			if ef != nil {
+				run.Violation("C17:V2SessionAuth:authentic-packet-rejected", fmt.Sprintf("%s: a fresh layer rejects it: %v", desc, ef), cs, nil)
+				return
+			}
+			if eu != nil {
+				run.Violation("C17:V2SessionAuth:acceptance-depends-on-history", fmt.Sprintf("%s: the used layer rejects it (%v), a fresh one accepts it", desc, eu), cs, nil)
+				return
+			}
+			if used.Length != fresh.Length || used.Pad != fresh.Pad || used.ID != fresh.ID || used.Sequence != fresh.Sequence || used.Authenticated != fresh.Authenticated ||
+				used.Encrypted != fresh.Encrypted || !bytes.Equal(used.Signature, fresh.Signature) || !bytes.Equal(used.LayerPayload(), fresh.LayerPayload()) {
+				run.Violation("C17:V2SessionAuth:stale", fmt.Sprintf("%s: used layer %s, fresh layer %s", desc, fieldsV2(used), fieldsV2(fresh)), cs, nil)
+				return
+			}
+		}
 	}
 }
